@@ -315,7 +315,6 @@ func TestVerifGroupsFSM(t *testing.T) {
 	if err != nil {
 		t.Fatal(err)
 	}
-	defer os.RemoveAll(base)
 	gate := &v12Gate{}
 	VerifGateHook = gate.hook
 	defer func() { VerifGateHook = nil }()
@@ -343,8 +342,11 @@ func TestVerifGroupsFSM(t *testing.T) {
 		}
 		tw.Emit(v12Event{T: b.ID, A: "Open", Args: map[string]interface{}{}, St: run.state(),
 			Obs: v12Obs{A: "Open", Ret: map[string][]int32{}}})
+		failed := false
 		for _, step := range b.Steps {
-			tw.Emit(run.step(b.ID, step))
+			ev := run.step(b.ID, step)
+			failed = failed || strings.HasPrefix(ev.Obs.Err, "other:") || strings.HasPrefix(ev.Obs.Err, "panic:")
+			tw.Emit(ev)
 			if run.infra != "" {
 				t.Fatalf("INFRA: behaviour %d: %s", b.ID, run.infra)
 			}
@@ -354,7 +356,11 @@ func TestVerifGroupsFSM(t *testing.T) {
 				close(p.ch)
 			}
 			v06Close(run.srv[v])
-			os.RemoveAll(run.dirs[v])
+			// (see TestVerifMetadataFSM: directories of a behaviour in which the code under
+			// test failed stay until the process has exited)
+			if !failed {
+				os.RemoveAll(run.dirs[v])
+			}
 		}
 	}
 }
